@@ -179,15 +179,21 @@ fn collect_types_to_bind(
             .iter()
             // Skipped fields are not part of the type info, so they need no bounds.
             .filter(|field| !utils::should_skip(&field.attrs))
-            .filter(|field| {
+            // The type described for a field is the one it is encoded as, if that is given.
+            .map(|f| {
+                (
+                    utils::maybe_encoded_as(f).unwrap_or_else(|| f.ty.clone()),
+                    utils::is_compact(f),
+                )
+            })
+            .filter(|(ty, _)| {
                 // Only add a bound if the type uses a generic.
-                type_contains_idents(&field.ty, ty_params)
+                type_contains_idents(ty, ty_params)
                 &&
                 // Remove all remaining types that start/contain the input ident
                 // to not have them in the where clause.
-                !type_or_sub_type_path_starts_with_ident(&field.ty, input_ident)
+                !type_or_sub_type_path_starts_with_ident(ty, input_ident)
             })
-            .map(|f| (f.ty.clone(), utils::is_compact(f)))
             .collect()
     };
 
